@@ -157,6 +157,21 @@ func buildWorlds() []world {
 	evs = append(evs, ch("CH2-inner-sni-changed", seal2(mk("other.secret.example", alpn, 65, s11), 1, false).Outer.Record(), "illegal_parameter"))
 	evs = append(evs, ch("CH2-inner-alpn-reordered", seal2(mk(innerName, []string{"http/1.1", "h2"}, 65, s11), 1, false).Outer.Record(), "illegal_parameter"))
 	evs = append(evs, ch("CH2-inner-alpn-dropped", seal2(mk(innerName, []string{"h2"}, 65, s11), 1, false).Outer.Record(), "illegal_parameter"))
+	evs = append(evs, ch("CH2-inner-sni-case-changed", seal2(mk("INNER.secret.example", alpn, 65, s11), 1, false).Outer.Record(), "illegal_parameter"))
+	{
+		// retried hellos sealed consistently (AAD = what is sent) whose OUTER server name is no longer the config's public name
+		s := mk(innerName, alpn, 65, s11)
+		for i, e := range s.Outer.Exts {
+			if e.Type == tlsref.ExtSNI {
+				s.Outer.Exts[i] = tlsref.SNI("elsewhere.example")
+			}
+		}
+		evs = append(evs, ch("CH2-outer-sni-changed", seal2(s, 1, false).Outer.Record(), "illegal_parameter"))
+		s = mk(innerName, alpn, 65, s11)
+		s.Outer.Exts = slices.DeleteFunc(s.Outer.Exts, func(e tlsref.Ext) bool { return e.Type == tlsref.ExtSNI })
+		s.EchIdx = slices.IndexFunc(s.Outer.Exts, func(e tlsref.Ext) bool { return e.Type == tlsref.ExtECH })
+		evs = append(evs, ch("CH2-outer-sni-absent", seal2(s, 1, false).Outer.Record(), "illegal_parameter"))
+	}
 	evs = append(evs,
 		event{Name: "c-CCS", Dir: 'c', Rec: tlsref.Record(20, 0x0303, []byte{1})},
 		event{Name: "c-handshake-other", Dir: 'c', Rec: tlsref.Record(22, 0x0303, tlsref.HandshakeMsg(11, tlsref.DetBytes("cert", 30)))},
@@ -296,7 +311,7 @@ func Run(r *ev.Run) {
 	if r.Thorough() {
 		depth = 5
 	}
-	r.Rule(fmt.Sprintf("E4: explicit-state model of the retry protocol (state = accepted, read/write pass-through, armed-by-HRR, retried, dead); alphabet of 19 whole-record events: client {valid retried hello, hello sealed at seq 0, hello without ECH, other config id, other suite, non-empty enc, corrupt payload, inner SNI changed, inner ALPN reordered, inner ALPN dropped, CCS, other handshake, alert, application data}, backend {ServerHello, HelloRetryRequest, CCS, other handshake, application data}; EVERY history of length %d (hence every shorter one as a prefix) x 3 first-hello situations {accepted, keys but not accepted, no keys} is replayed on a fresh real Conn and compared with the model after every event (bytes delivered, error class, alert bytes, close). distinct = distinct (world, history)", depth))
+	r.Rule(fmt.Sprintf("E4: explicit-state model of the retry protocol (state = accepted, read/write pass-through, armed-by-HRR, retried, dead); alphabet of 22 whole-record events: client {valid retried hello, hello sealed at seq 0, hello without ECH, other config id, other suite, non-empty enc, corrupt payload, inner SNI changed, inner SNI changed in letter case only, outer SNI changed / absent (sealed consistently), inner ALPN reordered, inner ALPN dropped, CCS, other handshake, alert, application data}, backend {ServerHello, HelloRetryRequest, CCS, other handshake, application data}; EVERY history of length %d (hence every shorter one as a prefix) x 3 first-hello situations {accepted, keys but not accepted, no keys} is replayed on a fresh real Conn and compared with the model after every event (bytes delivered, error class, alert bytes, close). distinct = distinct (world, history)", depth))
 	r.Assume("model written from the property statement; reference sender validated against crypto/tls (C03)", "events are whole records; fragmentation is C07's subject")
 	worlds := buildWorlds()
 	nev := len(worlds[0].events)
